@@ -1,5 +1,5 @@
-use crate::clock::*;
-use crate::host::*;
+use ptpsim::clock::*;
+use ptpsim::host::*;
 use vcommon::Chooser;
 
 pub fn run() {
